@@ -133,7 +133,18 @@ class Rewriter(ast.NodeTransformer):
 
     def visit_For(self, node):
         it = norm_iter(ast.unparse(node.iter))
-        if it not in ALLOWED_FOR_ITERS and it not in self.cfg.get('allow_for', ()):
+        def concrete(n):
+            """an iteration over literals: executed as written (attribute names, small index ranges, sign pairs)"""
+            if isinstance(n, ast.Constant):
+                return True
+            if isinstance(n, (ast.Tuple, ast.List)):
+                return True      # a display has a fixed number of elements, whatever they are
+            if isinstance(n, ast.Call) and isinstance(n.func, ast.Name) and n.func.id in ('range', 'enumerate', 'zip', 'reversed'):
+                return all(concrete(a) for a in n.args) and not n.keywords
+            if isinstance(n, ast.UnaryOp) and isinstance(n.operand, ast.Constant):
+                return True
+            return False
+        if it not in ALLOWED_FOR_ITERS and it not in self.cfg.get('allow_for', ()) and not (concrete(node.iter) and not isinstance(node.iter, ast.Constant)):
             raise TraceAbort('%s: for-loop over %r is neither translatable nor configured as hand-modelled' % (self.fname, it))
         node.body = self._stmts(node.body)
         return node
